@@ -231,7 +231,7 @@ impl<'r> Fam<'r> {
 			name_override = Some(format!("Renamed{i}"));
 		}
 		if self.rng.gen_bool(0.2) {
-			ns = Some(["", "ns", "a.b"].choose(self.rng).unwrap().to_string());
+			ns = Some(["", "ns", "a.b", "a"].choose(self.rng).unwrap().to_string());
 		}
 		if r < 55 {
 			let nparams = if !force_record && self.rng.gen_bool(0.2) { 1 } else { 0 };
@@ -446,11 +446,22 @@ fn rust_ty(t: &Ty, decls: &[Decl]) -> String {
 		Ty::String => "String".into(),
 		Ty::ByteVec => "Vec<u8>".into(),
 		Ty::ByteArray(n) => format!("[u8; {n}]"),
-		Ty::Vec(t) => format!("Vec<{}>", rust_ty(t, decls)),
-		Ty::Option(t) => format!("Option<{}>", rust_ty(t, decls)),
+		// (now and then under their full paths: the macro looks at the LAST path segment)
+		Ty::Vec(t) => {
+			let inner = rust_ty(t, decls);
+			format!("{}<{}>", if inner.len() % 4 == 1 { "std::vec::Vec" } else { "Vec" }, inner)
+		}
+		Ty::Option(t) => {
+			let inner = rust_ty(t, decls);
+			format!("{}<{}>", if inner.len() % 4 == 2 { "std::option::Option" } else { "Option" }, inner)
+		}
 		Ty::HashMap(t) => format!("HashMap<String, {}>", rust_ty(t, decls)),
 		Ty::BTreeMap(t) => format!("BTreeMap<String, {}>", rust_ty(t, decls)),
-		Ty::Ptr(k, t) => format!("{}<{}>", ["Box", "Rc", "Arc"][*k as usize], rust_ty(t, decls)),
+		Ty::Ptr(k, t) => {
+			let inner = rust_ty(t, decls);
+			let names = if inner.len() % 3 == 0 { ["std::boxed::Box", "std::rc::Rc", "std::sync::Arc"] } else { ["Box", "Rc", "Arc"] };
+			format!("{}<{}>", names[*k as usize], inner)
+		}
 		Ty::Param(_) => "T".into(),
 		Ty::Named(id, args) => {
 			if args.is_empty() {
@@ -820,8 +831,59 @@ pub mod opaque_constgen {
 	}
 }
 
+pub mod opaque_lifetimes {
+	use crate::runner::run_family_opaque_borrowed;
+	use serde_avro_derive::BuildSchema;
+	use serde_derive::Serialize;
+	// lifetime parameters only, a lifetime next to a type parameter, and types reached through
+	// module paths: none of them makes a type "generic" for naming purposes except the type parameter
+	#[derive(BuildSchema, Serialize)]
+	pub struct Borrowed<'a> {
+		pub name: &'a str,
+		#[serde(with = "serde_bytes")]
+		pub raw: &'a [u8],
+		pub inner: std::option::Option<std::boxed::Box<Leaf<'a>>>,
+	}
+	#[derive(BuildSchema, Serialize)]
+	pub struct Leaf<'a> {
+		pub tag: &'a str,
+		pub n: i64,
+	}
+	#[derive(BuildSchema, Serialize)]
+	pub struct Both<'a, T> {
+		pub label: &'a str,
+		pub value: T,
+		pub many: std::vec::Vec<T>,
+	}
+	#[derive(BuildSchema, Serialize)]
+	pub struct Root<'a> {
+		pub a: Borrowed<'a>,
+		pub b: Borrowed<'a>,
+		pub x: Both<'a, i32>,
+		pub y: Both<'a, std::string::String>,
+		pub z: self::Leaf<'a>,
+		pub m: std::collections::BTreeMap<String, Leaf<'a>>,
+	}
+	pub fn run(out: &mut Vec<String>) {
+		let s = String::from("hello");
+		let bytes = vec![1u8, 2, 3];
+		let mut m = std::collections::BTreeMap::new();
+		m.insert("k".to_string(), Leaf { tag: &s, n: 1 });
+		let v = Root {
+			a: Borrowed { name: &s, raw: &bytes, inner: Some(Box::new(Leaf { tag: &s, n: -1 })) },
+			b: Borrowed { name: "", raw: &[], inner: None },
+			x: Both { label: &s, value: 5, many: vec![1, 2] },
+			y: Both { label: "y", value: "v".to_string(), many: vec![] },
+			z: Leaf { tag: &s, n: 7 },
+			m,
+		};
+		run_family_opaque_borrowed("lifetimes", &[v], out);
+	}
+}
+
 "#;
 
+const _: () = ();
 pub fn generate_source(seed: u64, n: usize) -> String {
 	let mut rng = rng_from(seed, "derive");
 	let mut src = String::new();
@@ -874,6 +936,7 @@ pub fn generate_source(seed: u64, n: usize) -> String {
 	// hand-written families outside the model's program language, judged on the real code
 	src.push_str(OPAQUE_FAMILIES);
 	calls.push("\topaque_constgen::run(out);\n".into());
+	calls.push("\topaque_lifetimes::run(out);\n".into());
 	src.push_str("pub fn run_all(out: &mut Vec<String>) {\n");
 	for c in calls {
 		src.push_str(&c);
